@@ -116,7 +116,7 @@ class PGM(Optimizer):
         Return ``False`` if a ``NaN`` or ``Inf`` value is encountered in
         a solver working variable.
         """
-        return snp.all(snp.isfinite(self.x))
+        return not snp.any(snp.logical_not(snp.isfinite(self.x)))
 
     def _objective_evaluatable(self):
         """Determine whether the objective function can be evaluated."""
@@ -237,4 +237,6 @@ class AcceleratedPGM(PGM):
         Return ``False`` if a ``NaN`` or ``Inf`` value is encountered in
         a solver working variable.
         """
-        return snp.all(snp.isfinite(self.x)) and snp.all(snp.isfinite(self.v))
+        return not snp.any(snp.logical_not(snp.isfinite(self.x))) and not snp.any(
+            snp.logical_not(snp.isfinite(self.v))
+        )
